@@ -37,7 +37,7 @@ def gen_network(rng, profile):
     for _ in range(rng.randint(0, ns + 1)):
         a, b = rng.randrange(ns), rng.randrange(ns)
         if a != b and (a, b) not in seen:
-            seen.add((a, b)); foot.append((a, b, rng.choice([0, 30, 60, 120, 300, 1500]) if rng.random() < .9 else rng.randint(1, 400), rng.randint(0, 400)))
+            seen.add((a, b)); foot.append((a, b, rng.choice([30, 60, 120, 300, 1500]) if rng.random() < .9 else rng.randint(1, 400), rng.randint(0, 400)))
     if rng.random() < 0.5:
         rng.shuffle(foot)
     nag = rng.randint(1, 3); nsv = rng.randint(1, 3)
@@ -134,7 +134,7 @@ def gen_tmpl(rng):
     elif kind == 'css': J = [X, D]
     elif kind == 'bts':
         # the continuation passes the stop where K alighted *after* its boarding stop: equal labels (zero dwell / wait)
-        foot[(W, Fp)] = (0 if rng.random() < .5 else 30, 10); J = [Fp, W, D]
+        foot[(W, Fp)] = (30, 10); J = [Fp, W, D]
         cbJ = [1, 0 if rng.random() < .2 else 1, 1]
         arrJ, depJ = add(J, arrK[-1] + rng.choice([0, 30, 300]), dw=0, cb=cbJ, n=rng.randint(1, 2), hop=(60,)); J = None
     else:
